@@ -397,12 +397,18 @@ def _system_probe(program, folder, rep):
                 built[0][0] == ("items", TABLES) and \
                 routed in [(c, p) for c, p in built[0][2]]
         # an unresponsive chip is skipped: the probe is inside try/except
-        tr = st._parent
-        while tr is not None and not isinstance(tr, ast.Try):
-            tr = tr._parent
-        okg = okg and filt and tr is not None and any(
-            h.type is not None and unparse(h.type) == "SCPError"
-            for h in tr.handlers)
+        # (the try encloses the *call*; the store of what it returned may
+        # come after it)
+        guarded = True
+        for pc in calls_in(gi, "get_chip_info"):
+            tr = pc._parent
+            while tr is not None and not (isinstance(tr, ast.Try) and any(
+                    _inside(pc, b_) for b_ in tr.body)):
+                tr = tr._parent
+            guarded = guarded and tr is not None and any(
+                h.type is not None and unparse(h.type) == "SCPError"
+                for h in tr.handlers)
+        okg = okg and filt and guarded
         # size = largest routed coordinate + 1
         si = plain(base)
         oks = False
@@ -720,11 +726,17 @@ def _p2p_stream(program, folder, rep, fn):
             if smaller_first:
                 it_t = ("call", ("global", "range"),
                         (("call", ("global", "min"), (a_, b_), ()),), ())
-    okm = okm and it_t[0] == "call" and it_t[1] == ("global", "range") and \
-        len(it_t[2]) == 1 and it_t[2][0][0] == "call" and \
-        it_t[2][0][1] == ("global", "min") and \
-        sorted(it_t[2][0][2], key=repr) == sorted(
-            [("const", 8), hr_], key=repr)
+    if not (it_t[0] == "call" and it_t[1] == ("global", "range") and
+            len(it_t[2]) == 1 and it_t[2][0][0] == "call" and
+            it_t[2][0][1] == ("global", "min")):
+        # (e.g. the count chosen by an if / else statement: the condition
+        # is not part of the value term)
+        raise AnalysisError("get_p2p_routing_table: the number of entries "
+                            "taken from a word is not range(min(..)) or the "
+                            "equivalent conditional expression; that form "
+                            "is not analysed")
+    okm = okm and sorted(it_t[2][0][2], key=repr) == sorted(
+        [("const", 8), hr_], key=repr)
     ev = chain(f.target)
     st = [s_ for s_ in ast.walk(f) if isinstance(s_, ast.Assign)
           and isinstance(s_.targets[0], ast.Subscript)]
@@ -1290,6 +1302,23 @@ def _range_merging(program, rep, mn):
         svars = [R[1].var]
     else:
         raise AnalysisError("range merging: the open range")
+
+    # the case analysis below reads one update of the state per pass: a
+    # state variable re-bound and then tested / bound again within one pass
+    # (``start = None`` ... ``if start is None: start = core``) is a form it
+    # does not follow
+    for v_ in svars:
+        bs_ = [b_ for b_ in T.binds if b_.var == v_ and b_.mode not in (
+            "param", "iter") and _inside(b_.node.ast, lp)]
+        for a_ in bs_:
+            for c_ in bs_:
+                if a_ is not c_ and cfg.reaches(a_.node, c_.node,
+                                                avoid=[head]):
+                    raise AnalysisError(
+                        "range merging: %s is bound twice within one pass "
+                        "of the loop (lines %d and %d); the case analysis "
+                        "reads one update per pass" % (
+                            v_, a_.node.lineno or 0, c_.node.lineno or 0))
 
     def at_head(v):
         return T.term(ast.Name(id=v, ctx=ast.Load()), head)
@@ -1908,6 +1937,38 @@ def r6_struct_layout(program, rep):
                                   nb))
 
 
+def r_struct_no_overlap(program, rep, rule):
+    """Every struct of sark.struct: no field runs into the next one or past
+    the end of the struct.  (A field declared wider than it is: writing it
+    overwrites its neighbour, reading it returns both.)"""
+    text = program.read_data("rig/boot/sark.struct").decode("latin-1")
+    names = re.findall(r"^\s*name\s*=\s*(\w+)", text, re.M)
+    if not names:
+        raise AnalysisError("sark.struct: no struct found")
+    for name in names:
+        lay, size = _parse_struct_layout(text, name)
+        inst = "rig/boot/sark.struct:%s" % name
+        fs = sorted((off, nb, f) for f, (off, nb) in lay.items())
+        bad = [(a, b) for a, b in zip(fs, fs[1:]) if a[0] + a[1] > b[0]]
+        rep.check(not bad, rule, inst, "no field of %s overlaps the next"
+                  % name, construct="struct %s overlaps %d" % (name,
+                                                                len(bad)),
+                  positive=True,
+                  fail="%s.%s (%d byte(s) at 0x%02x) runs into %s.%s at "
+                       "0x%02x: writing the first overwrites the second, "
+                       "reading it returns both" % (
+                           (name, bad[0][0][2], bad[0][0][1], bad[0][0][0],
+                            name, bad[0][1][2], bad[0][1][0]) if bad else
+                           ("",) * 2 + (0, 0) + ("",) * 2 + (0,)))
+        over = [f for f in fs if size is not None and f[0] + f[1] > size]
+        rep.check(not over, rule, inst, "every field of %s lies inside its "
+                  "%s bytes" % (name, size),
+                  construct="struct %s beyond end %d" % (name, len(over)),
+                  positive=True,
+                  fail="%s.%s ends beyond the %s bytes of the struct" % (
+                      name, over[0][2] if over else "", size))
+
+
 def r6_status_offsets(program, rep):
     """Each field of the per-core status block is decoded at the offset the
     struct description gives for it (fields need not be back to back: the
@@ -2050,6 +2111,7 @@ def check(program, rep):
     rep.guard("C14-R6", r6_status, program, folder, rep)
     rep.guard("C14-R6", r6_status_offsets, program, rep)
     rep.guard("C14-R6", r6_struct_layout, program, rep)
+    rep.guard("C14-R6", r_struct_no_overlap, program, rep, "C14-R6")
     # the console buffers and per-core fields are found through
     # read_vcpu_struct_field: the address is computed for the chip and core
     # asked about, each time (C07-R4)
